@@ -242,6 +242,26 @@ func checkC01(r *Run) {
 	c01Grammar(r)
 	c01EncodeTotal(r)
 	c01MarshalFresh(r)
+	// a failed encode/decode step never continues to a success return; the stat-record helpers size their buffers
+	// without wrapping (a record of any representable size decodes)
+	ng := 0
+	for _, name := range []string{"p9p:(*encoder).encode", "p9p:(*decoder).decode", "p9p:(codec9p).Marshal", "p9p:(codec9p).Unmarshal", "p9p:DecodeDir", "p9p:EncodeDir"} {
+		if fn := r.P.Fn(name); fn != nil {
+			for _, f := range r.P.withHelpers(fn, 1) {
+				if f == fn || f.Parent() == nil && !strings.Contains(name, fnName(f)) {
+					ng += errorGatesSuccess(r, f, "error-gates-success")
+				}
+			}
+		}
+	}
+	r.Floor("error-gates-success", ng, 30, "error-returning steps in the codec")
+	nb := 0
+	for _, name := range []string{"p9p:DecodeDir", "p9p:EncodeDir"} {
+		if fn := r.P.Fn(name); fn != nil {
+			nb += dischargeBounds(r, fn, "dir-record-bounds", nil)
+		}
+	}
+	r.Floor("dir-record-bounds", nb, 2, "slice/make obligations in DecodeDir/EncodeDir")
 	r.Exhaustive = true
 	_ = ast.Inspect
 }
